@@ -13,6 +13,8 @@ package mux
 
 import (
 	"context"
+	"crypto/tls"
+	"crypto/x509"
 	"fmt"
 	"io"
 	"net"
@@ -28,6 +30,7 @@ import (
 	"pgregory.net/rapid"
 
 	"github.com/temporalio/s2s-proxy/config"
+	"github.com/temporalio/s2s-proxy/encryption"
 	"github.com/temporalio/s2s-proxy/transport/mux/session"
 	"github.com/temporalio/s2s-proxy/vfshared"
 )
@@ -46,6 +49,11 @@ type c10tCase struct {
 	// ShutdownAsIs: shut down in whatever state the history left (peer possibly unreachable, pool possibly not full)
 	// instead of first letting the pool heal
 	ShutdownAsIs bool `json:"shutdown_as_is,omitempty"`
+	// TLS: the pool's connections are TLS with CA verification (fresh key material per case); the peer holds matching
+	// credentials. Silent: additionally one peer connects at the TCP level and then says nothing at all (not even a
+	// TLS hello) for the whole case - the pool must work around it.
+	TLS    bool `json:"tls,omitempty"`
+	Silent bool `json:"silent,omitempty"`
 }
 
 type c10tNoListener struct{}
@@ -157,6 +165,8 @@ func c10tRun(c c10tCase) (res c10tResult) {
 	defer close(stopPeer)
 
 	// ---- the peer
+	var peerTLSHolder *tls.Config
+	peerTLSRef := &peerTLSHolder
 	serveListener := func(l net.Listener) {
 		for {
 			cn, err := l.Accept()
@@ -167,7 +177,11 @@ func c10tRun(c c10tCase) (res c10tResult) {
 				_ = cn.Close()
 				continue
 			}
-			fz := &c10tFreezeConn{Conn: cn, unfreeze: make(chan struct{})}
+			var under net.Conn = cn
+			if peerTLSRef != nil && *peerTLSRef != nil {
+				under = tls.Server(cn, *peerTLSRef)
+			}
+			fz := &c10tFreezeConn{Conn: under, unfreeze: make(chan struct{})}
 			s, err := yamux.Server(fz, c10tYamuxCfg())
 			if err != nil {
 				_ = cn.Close()
@@ -201,7 +215,29 @@ func c10tRun(c c10tCase) (res c10tResult) {
 		_ = l.Close()
 	}
 
-	cd := config.ClusterDefinition{MuxCount: c.N, MuxAddressInfo: config.TCPTLSInfo{ConnectionString: addr}}
+	var peerTLS *tls.Config
+	var proxyTLS encryption.TLSConfig
+	if c.TLS {
+		dir, err := os.MkdirTemp("", "vf-c10t-")
+		if err != nil {
+			res.inconclusive = err.Error()
+			return
+		}
+		defer os.RemoveAll(dir)
+		ca := vfshared.NewPKICA("vf mux CA", 1)
+		caPath, _ := vfshared.WritePEM(dir, "ca", ca.PEM, nil)
+		proxyCert, proxyPEM, proxyKey := ca.Leaf("proxy", 2, "proxy.vf", false)
+		_ = proxyCert
+		certPath, keyPath := vfshared.WritePEM(dir, "proxy", proxyPEM, proxyKey)
+		peerCert, _, _ := ca.Leaf("peer", 3, "peer.vf", false)
+		pool := x509.NewCertPool()
+		pool.AddCert(ca.Cert)
+		proxyTLS = encryption.TLSConfig{CertificatePath: certPath, KeyPath: keyPath, RemoteCAPath: caPath, CAServerName: "peer.vf"}
+		peerTLS = &tls.Config{Certificates: []tls.Certificate{peerCert}, RootCAs: pool, ClientCAs: pool, ClientAuth: tls.RequireAndVerifyClientCert, ServerName: "proxy.vf", MinVersion: tls.VersionTLS12}
+		res.classes["tls"] = true
+	}
+	peerTLSHolder = peerTLS
+	cd := config.ClusterDefinition{MuxCount: c.N, MuxAddressInfo: config.TCPTLSInfo{ConnectionString: addr, TLSConfig: proxyTLS}}
 	if c.Role == "establisher" {
 		cd.ConnectionType = config.ConnTypeMuxClient
 	} else {
@@ -250,6 +286,9 @@ func c10tRun(c c10tCase) (res c10tResult) {
 					cn, err := net.DialTimeout("tcp", addr, time.Second)
 					if err != nil {
 						break
+					}
+					if peerTLS != nil {
+						cn = tls.Client(cn, peerTLS)
 					}
 					s, err := yamux.Client(cn, c10tYamuxCfg())
 					if err != nil {
@@ -300,8 +339,19 @@ func c10tRun(c c10tCase) (res c10tResult) {
 		}
 		return false
 	}
-	if !waitFull(25 * time.Second) {
-		res.viol = fmt.Sprintf("with a reachable peer the pool of %d never filled: %d live session(s) after 25 s", c.N, len(mgr.GetMuxConnections()))
+	if c.Silent && c.Role == "receiver" {
+		// connects first and never speaks: whatever the pool does with it, the good peers behind it must get in
+		for i := 0; i < 40; i++ {
+			if sc, err := net.DialTimeout("tcp", addr, 500*time.Millisecond); err == nil {
+				defer sc.Close()
+				res.classes["a_peer_connected_and_never_spoke"] = true
+				break
+			}
+			time.Sleep(50 * time.Millisecond)
+		}
+	}
+	if !waitFull(60 * time.Second) {
+		res.viol = fmt.Sprintf("with a reachable peer the pool of %d never filled: %d live session(s) after 60 s", c.N, len(mgr.GetMuxConnections()))
 		return
 	}
 	var vanished []*c10tPeerConn
@@ -492,7 +542,7 @@ func c10tRun(c c10tCase) (res c10tResult) {
 	return res
 }
 
-const c10tRule = "tcp part: the pool as NewGRPCMuxManager assembles it (establisher.go / receiver.go providers, real yamux over loopback TCP, real time), N=1-3; the harness is the peer: listener that serves, accepts-and-hangs-up or is down (establishing role), dialers holding N+extra connections (receiving role); histories of kill one / kill all / refuse / down / up / wait / vanish (a peer stops answering but leaves the connection open: thorough tier and one committed replay), then either healing + shutdown or shutdown in whatever state the history left (peer possibly unreachable); oracles: registered sessions never exceed N (sampled every 5 ms), the pool is full again within 45 s once the peer is reachable, after shutdown the manager finishes, no connection still answers, nothing is registered and the listener is gone; non-trivial = a session was killed or the peer was unreachable before healing was checked"
+const c10tRule = "tcp part: the pool as NewGRPCMuxManager assembles it (establisher.go / receiver.go providers, real yamux over loopback TCP - plain or TLS with CA verification -, real time), N=1-3; the harness is the peer: listener that serves, accepts-and-hangs-up or is down (establishing role), dialers holding N+extra connections, optionally behind one peer that connected first and never says a word (receiving role); histories of kill one / kill all / refuse / down / up / wait / vanish (a peer stops answering but leaves the connection open: thorough tier and one committed replay), then either healing + shutdown or shutdown in whatever state the history left (peer possibly unreachable); oracles: registered sessions never exceed N (sampled every 5 ms), the pool is full again within 45 s once the peer is reachable, after shutdown the manager finishes, no connection still answers, nothing is registered and the listener is gone; non-trivial = a session was killed or the peer was unreachable before healing was checked"
 
 func TestVF_C10_TCP(t *testing.T) {
 	const part = "tcp"
@@ -568,6 +618,8 @@ func TestVF_C10_TCP(t *testing.T) {
 			}
 			c.Ops = append(c.Ops, o)
 		}
+		c.TLS = rapid.IntRange(0, 2).Draw(rt, "tls") == 0
+		c.Silent = c.Role == "receiver" && rapid.IntRange(0, 3).Draw(rt, "silent") == 0
 		c.ShutdownAsIs = rapid.IntRange(0, 2).Draw(rt, "asIs") == 0
 		if c.ShutdownAsIs && rapid.IntRange(0, 2).Draw(rt, "endUnreachable") > 0 {
 			c.Ops = append(c.Ops, c10tOp{K: rapid.SampledFrom([]string{"down", "refuse"}).Draw(rt, "how")}, c10tOp{K: "killAll"}, c10tOp{K: "wait", Ms: 1200})
